@@ -31,7 +31,7 @@ void harness(void) {
   MUSTFAIL(!(sent_after == f - 1), "worst_case_reachable");
 #else
   coap_context_t *ctx = malloc(sizeof(*ctx)); ASSUME(ctx != NULL);
-  static uint8_t live_name[] = "f"; static uint8_t res_name[] = "ab";
+  uint8_t live_name[2]; live_name[0] = 'f'; live_name[1] = 0; uint8_t res_name[3]; res_name[0] = 'a'; res_name[1] = 'b'; res_name[2] = 0;
   coap_bin_const_t save_file = { 1, live_name }; coap_str_const_t rname = { 2, res_name };
   ctx->obs_cnt_save_file = &save_file; G_live_path = (const char *)live_name;
   G_live_open = G_tmp_open = G_tmp_created = G_tmp_write_failed = G_tmp_writes = G_tmp_flushed = G_tmp_flush_failed = G_renamed = G_tmp_removed = G_reads = 0; G_read_limit = 2;
@@ -42,7 +42,7 @@ void harness(void) {
   int r = coap_op_obs_cnt_deleted(ctx, &rname);
 #else
   ctx->dyn_resource_save_file = &save_file; G_read_limit = 11;   /* 5 fread calls per record: two records + end of file */
-  static uint8_t pkt[] = { 0x40, 0x01, 0x00, 0x01 }; coap_bin_const_t packet = { 4, pkt };
+  uint8_t pkt[4]; pkt[0] = 0x40; pkt[1] = 1; pkt[2] = 0; pkt[3] = 1; coap_bin_const_t packet = { 4, pkt };
 #if WHICH == 4
   coap_session_t *session = malloc(sizeof(*session)); ASSUME(session != NULL); session->context = ctx; session->proto = COAP_PROTO_UDP;
   int r = coap_op_dyn_resource_added(session, &rname, &packet, NULL);
